@@ -421,6 +421,14 @@ pub struct World {
     pub flush_queue: std::collections::VecDeque<u8>,
     /// C18: keys whose newest version went through a major compaction (an assigned filter must have been applied)
     pub must_filtered: std::collections::BTreeSet<(u8, Vec<u8>)>,
+    /// contents of the sealed memtables per keyspace, oldest first (lsm-tree does not expose them): canonical state
+    pub sealed_shadow: BTreeMap<u8, std::collections::VecDeque<Vec<(Vec<u8>, u64, u8, Vec<u8>)>>>,
+    /// the shadow could not be kept (two memtables sealed within one operation): no canonical state any more
+    pub shadow_lost: bool,
+    /// keep `sealed_shadow` (only when the explorer deduplicates by canonical state)
+    pub track_shadow: bool,
+    /// journal file -> every journaled operation the harness issued while it was the active journal (text, seqno)
+    pub journal_ops: BTreeMap<String, Vec<(String, u64)>>,
 }
 
 pub mod fjall_filter {
@@ -537,6 +545,10 @@ impl World {
             loc: BTreeMap::new(),
             flush_queue: Default::default(),
             must_filtered: Default::default(),
+            sealed_shadow: Default::default(),
+            shadow_lost: false,
+            track_shadow: false,
+            journal_ops: Default::default(),
         };
         for i in 0..w.cfg.nks as u8 {
             w.create_ks(i)?;
@@ -567,6 +579,10 @@ impl World {
             loc: BTreeMap::new(),
             flush_queue: Default::default(),
             must_filtered: Default::default(),
+            sealed_shadow: Default::default(),
+            shadow_lost: false,
+            track_shadow: false,
+            journal_ops: Default::default(),
         };
         let names: Vec<u8> = w.model.keys().copied().collect();
         for i in names {
@@ -637,6 +653,18 @@ impl World {
     /// Executes one operation against the real database and the model.
     /// `Err` = the operation itself misbehaved (unexpected error / panic is caught by the caller).
     pub fn apply(&mut self, op: &Op) -> Result<(), Violation> {
+        if self.track_shadow {
+            let pre: BTreeMap<u8, _> = self.ks.iter().map(|(k, h)| (*k, crate::canon::active_items(h))).collect();
+            let r = self.apply_tracked(op);
+            if self.db.is_some() {
+                self.reconcile_sealed(pre);
+            }
+            return r;
+        }
+        self.apply_tracked(op)
+    }
+
+    fn apply_tracked(&mut self, op: &Op) -> Result<(), Violation> {
         if !self.track_journals {
             return self.apply_inner(op);
         }
@@ -655,6 +683,9 @@ impl World {
                 _ => vec![],
             };
             if let Some(active) = before.last() {
+                if !touched.is_empty() {
+                    self.journal_ops.entry(active.clone()).or_default().push((op.to_string(), pre_seqno));
+                }
                 for ks in touched {
                     self.journal_records.entry(active.clone()).or_default().push((ks, pre_seqno));
                 }
